@@ -115,6 +115,27 @@ def upclose_family(tag):
     return scs
 
 
+def after_resume_family(tag):
+    """alias tables survive a resume: after an outage the broker keeps using the aliases the client announced before it - chunks in alias
+    form resolve to the same upstreams and data ids, a new upstream gets a NEW alias, old aliases keep their meaning."""
+    scs = []
+    ch = lambda k, up, f, idn="A", idf="id": {"a": "sendChunk", "obj": "D1", "up": up, "upF": f, "upAl": -1 if f == "alias" else 0, "seq": k,
+                                              "groups": [{"f": idf, "id": idn, "al": -1 if idf == "al" else 0, "pts": [[k, 4]]}]}
+    rd = {"a": "read", "g": "R1", "obj": "D1", "ctxMs": 1500, "wait": True}
+    for k, delay in enumerate((0, 40)):
+        conn = {"pingMs": [100, 100], "dialDelayMs": delay}
+        steps = [{"a": "connect", "must": True}, {"a": "openDown", "obj": "D1", "qos": "reliable", "srcs": ["n-X", "n-Y"], "ackFlushMs": 20, "must": True},
+                 ch(1, "X", "info"), dict(rd), ch(2, "Y", "info", "B"), dict(rd), {"a": "sleep", "ms": 60},
+                 ch(3, "X", "alias", "A", "al"), dict(rd), {"a": "sleep", "ms": 60},
+                 {"a": "cut"}, {"a": "await", "ev": "DownResumed", "ms": 4000, "must": True}, {"a": "sleep", "ms": 50},
+                 ch(4, "X", "alias", "A", "al"), ch(5, "Z", "info", "C"), ch(6, "Y", "alias", "B", "al"), ch(7, "X", "alias"), dict(rd), dict(rd), dict(rd), dict(rd),
+                 {"a": "sleep", "ms": 60}, ch(8, "Z", "alias", "C", "al"), ch(9, "X", "alias"), dict(rd), dict(rd),
+                 {"a": "closeDown", "g": "C", "obj": "D1", "ctxMs": 3000, "wait": True}, {"a": "quiesce"},
+                 {"a": "closeConn", "g": "main2", "wait": True, "ctxMs": 2000}, {"a": "quiesce", "ms": 50}]
+        scs.append({"id": "%s/afterResume/%d" % (tag, k), "kind": "iscp", "conn": conn, "p": {"allowFaults": 1}, "steps": steps})
+    return scs
+
+
 def dupfilter_family(tag):
     """several filters of one downstream name the same source node: that node's metadata still arrives once each, in the broker's order."""
     scs = []
@@ -335,7 +356,7 @@ def run(pid="C04", mon="MonC04"):
         js.append(dict(x, id=x["id"] + "-json", conn=dict(x["conn"], encoding="json")))
     scs += js
     if pid == "C03":
-        scs += meta_family(pid) + dupfilter_family(pid) + upclose_family(pid) + downmeta(ctx, pid, quick)
+        scs += meta_family(pid) + dupfilter_family(pid) + upclose_family(pid) + after_resume_family(pid) + downmeta(ctx, pid, quick)
         # unreliable downstream over a transport with a separate unreliable path (chunks arrive on the datagram-like pipe)
         scs += forms_family(pid, 3, "up", qos="unreliable", conn={"unreliable": True}, name="forms-up3-unreliable-path")
         scs += forms_family(pid, 3, "up", qos="partial", name="forms-up3-partial")
